@@ -385,6 +385,8 @@ def run(ck):
     ck.props()
     rnd = random.Random(ck.seed)
     thorough = ck.tier == "thorough"
+    if thorough:
+        ck.props("C13all")       # the run-level theorems without the fuel hypothesis (corollaries of C13_fuel_enough)
     scale = 10 if thorough else 1
     L.quiet()
 
@@ -480,6 +482,9 @@ def run(ck):
                         ck.violation({"kind": "monitor failed on the implementation's trace (re-entrant callback on the start Deferred)", "theorem": b2[0][0],
                                       "step": b2[0][1], "what": b2[0][2], "hook": {1: "stop()", 2: "commit()", 3: "shutdown()"}[hook], "state_class": name,
                                       "cfg": cfg.line(), "events": [list(e) for e in small], "impl_trace": d2.trace, "replay_op": "hooked", "hook_code": hook})
+    # start() from a CALLBACK of the start Deferred, at the moment stop() reports the consumer stopped (C13-m9, C14-m8)
+    rruns, rrestarts, rfail = L.restart_cb_family(ck, rnd, [(n_, k_, p_) for (n_, k_, p_) in preambles(rnd)], 1 * scale)
+    ck.cov["restart_from_start_callback_runs"] = {"runs": rruns, "restarts_made": rrestarts, "failing": rfail}
     ck.cov["hooked_start_errback_runs"] = {"random_cases": 250 * scale, "directed_cases": ndir, "hook_invocations": nh, "failing": hooked_bad}
 
     nbad = 0
@@ -590,6 +595,8 @@ def replay(rp):
         bad = monitor_hooked(cfg, events, drv, obs, marks)
         print("monitor verdict:", bad if bad else "passes")
         return 1 if bad else 0
+    if rp.get("replay_op") == "restartcb":
+        return L.replay_restart_cb(rp)
     if rp.get("replay_op") != "case":
         print(json.dumps(rp, indent=1, default=repr)[:4000])
         return 1
